@@ -136,6 +136,49 @@ func runC09(w *World, r *Report, tier string) {
 		}
 	}
 	r.Floor("O2", 5)
+	// a fresh stream-managed session starts at zero: every path of EnableStreamManagement through the
+	// ok-edge of the SMEnabled assertion zeroes the counter (whole-state store without Inbound, or Inbound = 0)
+	{
+		en := w.Func("xmpp.(*Session).EnableStreamManagement")
+		isZeroing := func(in ssa.Instruction) bool {
+			st, ok := in.(*ssa.Store)
+			if !ok {
+				return false
+			}
+			fa, ok := st.Addr.(*ssa.FieldAddr)
+			if !ok {
+				return false
+			}
+			switch fieldOfAddr(fa) {
+			case fSessSM:
+				if isZeroValue(st.Val) {
+					return true
+				}
+				fields, al := complitFields(st.Val)
+				_, sets := fields["Inbound"]
+				return al != nil && !sets
+			case fInbound:
+				k, isK := intConst(st.Val)
+				return isK && k == 0
+			}
+			return false
+		}
+		nEn, bad := 0, ""
+		walkPaths(entryLoc(en), nil, nil, 20000, func(path []ssa.Instruction, end pathEnd) {
+			isEnabled := pathAsserts(path, func(c ssa.Value, truth bool) bool {
+				T, ok := typeAssertOK(c, nil)
+				return ok && truth && w.typeStr(T) == "stanza.SMEnabled"
+			})
+			if !isEnabled {
+				return
+			}
+			nEn++
+			if countOn(path, isZeroing) == 0 {
+				bad = "when the server answers <enabled/> the inbound counter is not reset: a session on which stream management is newly enabled (reused Session object after a reconnect) starts with the count of the previous connection, and every h it reports is too large by that amount"
+			}
+		})
+		r.Check(bad == "" && nEn > 0, "O2", "xmpp.(*Session).EnableStreamManagement#fresh-session-starts-at-zero", w.pos(en.Pos()), bad, fmt.Sprintf("%d <enabled/> path(s), each zeroes the counter", nEn))
+	}
 
 	// O3 reported values
 	for _, f := range lib {
@@ -145,7 +188,7 @@ func runC09(w *World, r *Report, tier string) {
 				if !ok {
 					continue
 				}
-				ts := w.typeStr(mi.X.Type())
+				ts := strings.TrimPrefix(w.typeStr(mi.X.Type()), "*")
 				if ts != "stanza.SMAnswer" && ts != "stanza.SMResume" {
 					continue
 				}
